@@ -1439,6 +1439,9 @@ class RTCSctpTransport(AsyncIOEventEmitter):
         gap_next = None
         for tsn in self._sorted_misordered():
             pos = (tsn - self._last_received_tsn) % SCTP_TSN_MODULO
+            if pos > 0xFFFF:
+                # gap ack block offsets are 16 bits wide
+                break
             if tsn == gap_next:
                 gaps[-1][1] = pos
             else:
